@@ -91,14 +91,26 @@ Definition tfr_step (s : tfr) (op : call) : tfr * list call :=
 
 (* ExtendedToStreamDecorator feeding StreamToExtendedDecorator: the final status
    carries test_tags=current_tags; _StreamToTestRecord keeps them; PlaceHolder.run
-   replays  tags(t, {}) startTest outcome stopTest tags({}, t)  on the target. *)
-Definition e2s_step (c : tagctx) (op : call) : tagctx * list call :=
-  (istep c op,
-   match op with
-   | StartRun => [StartRun]
-   | Outcome => let t := ctx_current c in [Tags (t, []); StartTest; Outcome; StopTest; Tags ([], t)]
-   | _ => []
-   end).
+   replays  tags(t, {}) startTest outcome stopTest tags({}, t)  on the target.
+   State: _tags (the root TagContext exists from __init__) and _started.  startTest and
+   every outcome call _ensure_started first: when the run was not started, startTestRun
+   goes to the targets (StreamToExtendedDecorator passes it on) and the decorator's own
+   _tags are KEPT (real.py:1761-1768); an explicit startTestRun resets them.  tags(),
+   current_tags and stopTest neither need nor start the run. *)
+Record e2s := { e_ctx : tagctx; e_started : bool }.
+Definition e2s0 : e2s := {| e_ctx := ctx_root; e_started := false |}.
+Definition ensure_started (s : e2s) : list call := if e_started s then [] else [StartRun].
+Definition e2s_step (s : e2s) (op : call) : e2s * list call :=
+  let c := e_ctx s in
+  match op with
+  | StartRun => ({| e_ctx := ctx_root; e_started := true |}, [StartRun])
+  | Tags ch => ({| e_ctx := ctx_change c ch; e_started := e_started s |}, [])
+  | StartTest => ({| e_ctx := ctx_push c; e_started := true |}, ensure_started s)
+  | Outcome => let t := ctx_current c in
+               ({| e_ctx := c; e_started := true |},
+                ensure_started s ++ [Tags (t, []); StartTest; Outcome; StopTest; Tags ([], t)])
+  | StopTest => ({| e_ctx := ctx_pop c; e_started := e_started s |}, [])
+  end.
 
 (* Tagger.startTest: decorated.startTest(test); self.tags(new, gone) *)
 Definition tagger_step (ch : change) (_ : unit) (op : call) : unit * list call :=
@@ -129,7 +141,7 @@ Fixpoint leaves_obs (a : adapter) (h : list call) : list (list tset) :=
   | Deco x | E2O x => leaves_obs x h
   | Tagger ch x => leaves_obs x (tagger_tr ch h)
   | TFR x => leaves_obs x (trans tfr_step tfr0 h)
-  | E2S x => seen_from ctx_root h :: leaves_obs x (trans e2s_step ctx_root h)
+  | E2S x => seen_from ctx_root h :: leaves_obs x (trans e2s_step e2s0 h)
   end.
 
 (* current_tags of the outermost object after the calls h *)
